@@ -124,6 +124,18 @@ pub fn check_entry(k: &str, v: &str, st: &mut Stats) {
         Err(p) => st.fail(format!("entry:{}", panic_sig(&p)), entry_case(k, v), k.len(), format!("panicked: {p:?}")),
         Ok(Err(e)) => st.oracle_error(format!("CLDR key {k}: {e}")),
         Ok(Ok((changed, s, lchanged, ls))) => {
+            // other spellings of the same key (upper case, lower case with '_'): same answer
+            for alt in [k.to_ascii_uppercase(), k.to_ascii_lowercase().replace('-', "_")] {
+                let r2 = guard(|| {
+                    let mut li: LanguageIdentifier = alt.parse().map_err(|e| format!("{e:?}"))?;
+                    let c = li.maximize();
+                    Ok::<_, String>((c, li.to_string()))
+                });
+                match r2 {
+                    Ok(Ok((c2, s2))) if c2 == changed && s2 == s => {}
+                    other => st.fail("entry:spelling-of-the-key-matters", entry_case(k, v), k.len(), format!("{k}: maximize() = {changed} -> {s}; spelled {alt:?}: {other:?}")),
+                }
+            }
             // the generator drops a ZZ region from values; none occurs in the bundled data
             let want = v.to_string();
             if s != want || changed != (k != v) {
